@@ -25,13 +25,13 @@
       '__CPROVER_same_object(strit, g_in0) && __CPROVER_POINTER_OFFSET(g_in0) == 0 && (size_t)__CPROVER_POINTER_OFFSET(strit) <= inlen && streit == g_in0 + inlen && input == g_in0',
       '__CPROVER_same_object(bufit, g_buf0) && __CPROVER_POINTER_OFFSET(g_buf0) == 0 && buffer == g_buf0',
       'C19_FIT((size_t)__CPROVER_POINTER_OFFSET(bufit), (size_t)__CPROVER_POINTER_OFFSET(strit))',
-      'g_nm <= (size_t)__CPROVER_POINTER_OFFSET(strit)',
+      'g_nm <= (size_t)__CPROVER_POINTER_OFFSET(strit) && (g_nm == 0 ==> (size_t)__CPROVER_POINTER_OFFSET(strit) == 0)',
       'g_nm > g_m ==> (g_prev <= g_pm && g_pm + sublen <= (size_t)__CPROVER_POINTER_OFFSET(strit) && sublen >= 1)',
       '(g_nm > g_m && g_j < sublen) ==> g_in0[g_pm + g_j] == sub[g_j]',
       '(g_nm > g_m && g_prev <= g_w && g_w < g_pm) ==> (g_wd < sublen && g_in0[g_w + g_wd] != sub[g_wd])',
-      '(g_nm == g_m + 1) ==> (size_t)__CPROVER_POINTER_OFFSET(strit) == g_pm + sublen',
-      '(g_nm > g_m + 1) ==> g_prev1 == g_pm + sublen',
-      'g_m == 0 && g_nm > 0 ==> g_prev == 0',
+      '(g_nm > g_m && g_nm == g_m + 1) ==> (size_t)__CPROVER_POINTER_OFFSET(strit) == g_pm + sublen',
+      '(g_nm > g_m && g_nm > g_m + 1) ==> g_prev1 == g_pm + sublen',
+      '(g_m == 0 && g_nm > 0) ==> g_prev == 0',
     ],
     'decreases': 'inlen - (size_t)__CPROVER_POINTER_OFFSET(strit)'},
  ],
